@@ -22,6 +22,8 @@ import SH.Model.PromSyntax
 import SH.Lemmas.PromSyntaxSound
 import SH.Model.PromLex
 import SH.Lemmas.PromLexNum
+import SH.Lemmas.PromLexStr
+import SH.Lemmas.PromLexAllSteps
 set_option linter.unusedSimpArgs false
 namespace SH.Props.C28
 open SH.PromSyntax
@@ -1214,61 +1216,21 @@ example : ∃ e, parse toks1 = some e ∧ parse (printExpr .fixed (norm e)) = so
 section Lexical
 open SH.PromLex
 
-theorem renderQ_cons (i : QItem) (is : List QItem) : renderQ (i :: is) = i.render ++ renderQ is := by
-  simp [renderQ]
+theorem renderQ_cons (i : QItem) (is : List QItem) : renderQ (i :: is) = i.render ++ renderQ is :=
+  SH.PromLex.Str.renderQ_cons i is
 
-theorem digitsVal2 (d1 d2 : Nat) (h1 : isHex d1 = true) (h2 : isHex d2 = true) : ∃ x, digitsVal 16 [d1, d2] = some x := by
-  simp only [isHex, decide_eq_true_eq] at h1 h2
-  simp [digitsVal, h1, h2]
+theorem digitsVal2 (d1 d2 : Nat) (h1 : isHex d1 = true) (h2 : isHex d2 = true) : ∃ x, digitsVal 16 [d1, d2] = some x :=
+  SH.PromLex.Str.digitsVal2 d1 d2 h1 h2
 
 /-- the lexer scans a `%q` body up to exactly its closing quote -/
 theorem lexString_renderQ (items : List QItem) (hok : ∀ i ∈ items, i.ok = true) (rest : List Nat) :
-    lexString cDq (renderQ items ++ cDq :: rest) = some (renderQ items, rest) := by
-  induction items with
-  | nil => simp only [renderQ, List.flatMap_nil, List.nil_append]; unfold lexString; simp [cDq, cBackslash, cNl]
-  | cons i is ih =>
-    have ih' := ih (fun j hj => hok j (by simp [hj]))
-    have hi := hok i (by simp)
-    rw [renderQ_cons]
-    cases i with
-    | plain c =>
-      simp only [QItem.ok, Bool.and_eq_true, bne_iff_ne, ne_eq] at hi
-      simp only [QItem.render, List.cons_append, List.nil_append]; unfold lexString
-      simp [hi.1.1, hi.1.2, hi.2, ih']
-    | short c =>
-      simp only [QItem.ok] at hi
-      simp only [QItem.render, List.cons_append, List.nil_append]; unfold lexString
-      simp [hi, ih']
-    | hex2 d1 d2 =>
-      simp only [QItem.ok, Bool.and_eq_true] at hi
-      obtain ⟨x, hx⟩ := digitsVal2 d1 d2 hi.1 hi.2
-      have hs : isShortEsc cDq 120 = false := by decide
-      simp only [QItem.render, List.cons_append, List.nil_append]; unfold lexString
-      simp [hs, hx, ih']
-    | u4 d1 d2 d3 d4 =>
-      simp only [QItem.ok] at hi
-      have hs : isShortEsc cDq 117 = false := by decide
-      cases hx : digitsVal 16 [d1, d2, d3, d4] with
-      | none => simp [hx] at hi
-      | some x =>
-        simp only [hx] at hi
-        simp only [QItem.render, List.cons_append, List.nil_append]; unfold lexString
-        simp [hs, hx, hi, ih']
-    | u8 d1 d2 d3 d4 d5 d6 d7 d8 =>
-      simp only [QItem.ok] at hi
-      have hs : isShortEsc cDq 85 = false := by decide
-      cases hx : digitsVal 16 [d1, d2, d3, d4, d5, d6, d7, d8] with
-      | none => simp [hx] at hi
-      | some x =>
-        simp only [hx] at hi
-        simp only [QItem.render, List.cons_append, List.nil_append]; unfold lexString
-        simp [hs, hx, hi, ih']
-
+    lexString cDq (renderQ items ++ cDq :: rest) = some (renderQ items, rest) :=
+  SH.PromLex.Str.lexString_renderQ items hok rest
 
 /-- the STRING token the lexer cuts from printed text `"…"` followed by anything is the printed literal itself -/
 theorem lexStringTok_quoted (items : List QItem) (hok : ∀ i ∈ items, i.ok = true) (rest : List Nat) :
-    lexStringTok (cDq :: (renderQ items ++ cDq :: rest)) = some (cDq :: renderQ items ++ [cDq], rest) := by
-  simp [lexStringTok, lexString_renderQ items hok rest]
+    lexStringTok (cDq :: (renderQ items ++ cDq :: rest)) = some (cDq :: renderQ items ++ [cDq], rest) :=
+  SH.PromLex.Str.lexStringTok_quoted items hok rest
 
 /-- Round trip of a string literal / matcher value through printer and lexer, for ANY pair of functions `quote`/`unquote`
     that satisfies on the value `v` the stated contract of strconv.Quote and strutil.Unquote (what `%q` writes consists of plain bytes and
@@ -1356,6 +1318,81 @@ theorem inf_nan_tokens (rest : List Nat) (hr : ∀ c t, rest = c :: t → isWord
     lexWord ([73, 110, 102] ++ rest) = ([73, 110, 102], rest) ∧ lexWord ([78, 97, 78] ++ rest) = ([78, 97, 78], rest) ∧
     isNumKind (classifyKind "Inf") = true ∧ isNumKind (classifyKind "NaN") = true :=
   ⟨lexWord_run _ rest (by decide) hr, lexWord_run _ rest (by decide) hr, by decide, by decide⟩
+
+open SH.PromLex.Num in
+/-- The `@ <timestamp>` clause: the printer writes k ms as `%.3f` seconds (`printMs k`, e.g. 1001 → `1.001`); the lexer cuts
+    that text as one NUMBER token and the decimal → millisecond conversion (rounding to the nearest ms, `atMs`) gives exactly
+    k back — for every k, without hypothesis. (That `atMs` is timestamp.FromFloatSeconds ∘ ParseFloat on such texts is the
+    correspondence op `atms`; a truncating conversion, seeded as C28-r3-1, returns k−1 for about 1% of the k.) -/
+theorem at_timestamp_roundtrip (k : Nat) (rest : List Nat) (hr : numFollow rest = true) :
+    lexNumOrDur (printMs k ++ rest) = .num (printMs k).length ∧ atMs (printMs k) = some k := by
+  obtain ⟨_, hd, hne⟩ := natDigits_spec (k / 1000)
+  have hshape : printMs k = (NumShape.mk (natDigits (k / 1000)) (some (pad3Digits (k % 1000))) none).render := by
+    simp [printMs, NumShape.render, fracToks, expToks]
+  have hok : (NumShape.mk (natDigits (k / 1000)) (some (pad3Digits (k % 1000))) none).ok = true := by
+    have h1 : (natDigits (k / 1000)).isEmpty = false := by
+      cases h : natDigits (k / 1000) with
+      | nil => exact absurd h hne
+      | cons _ _ => rfl
+    have h2 : (natDigits (k / 1000)).all isDigitB = true := List.all_eq_true.mpr hd
+    have h3 : (pad3Digits (k % 1000)).all isDigitB = true := List.all_eq_true.mpr (pad3_digits _)
+    have h4 : (pad3Digits (k % 1000)).isEmpty = false := rfl
+    simp only [NumShape.ok, h1, h2, h3, h4, Bool.not_false, Bool.and_self]
+  refine ⟨?_, atMs_printMs k⟩
+  have hs := scanNumber_shape _ hok rest hr
+  rw [hshape]
+  simp only [lexNumOrDur, hs, if_true, List.length_append]
+  congr 1
+  omega
+
+example : printMs 1001 = [49, 46, 48, 48, 49] ∧ atMs (printMs 1001) = some 1001 ∧ atMs [49, 46, 48, 48, 49, 52] = some 1001 := by
+  decide
+
+/-! ### the whole lexer (SH.Model.PromLexAll, step lemmas in SH.Lemmas.PromLexAllSteps)
+
+  `lexAll` models the complete state machine of lex.go (blanks, comments, operators, brace and bracket modes, the literal
+  scanners) and is compared with `Lexer.NextItem` on every generated source and every printed text (driver op `lexall`).
+  Towards ONE character-level round trip: every token class the printer writes is lexed by one step of that machine to exactly
+  that token, the right successor state and the rest of the text (`lexer_steps`), and the steps compose across the `[`…`]`
+  mode (`lex_range_suffix`). NOT proved: a character-level model of the printer's spacing and the induction that chains the
+  steps over a whole printed expression (`lexAll (printText e) = tokens of printExpr e`); on concrete texts the composition is
+  checked by `decide` (below) and on every generated case by the correspondence (ops print + lexall). -/
+
+open SH.PromLex.Steps SH.PromLex.Num in
+/-- one step of the whole lexer on the printed text of each literal class, in the state the printer's context implies -/
+theorem lexer_steps (st : LexState) (hst : plain st) :
+    (∀ n rest, headAlnum rest = false →
+      lexStep (printSeconds n ++ rest) st = .tok "DURATION" (printSeconds n).length rest st) ∧
+    (∀ n rest, headAlnum rest = false →
+      lexStep (printSeconds n ++ rest) { st with wantDur := true } = .tok "DURATION" (printSeconds n).length rest st) ∧
+    (∀ sh rest, sh.ok = true → numFollow rest = true → lexStep (sh.render ++ rest) st = .tok "NUMBER" sh.render.length rest st) ∧
+    (∀ items rest, (∀ i ∈ items, i.ok = true) →
+      lexStep (cDq :: (renderQ items ++ cDq :: rest)) st = .tok "STRING" ((renderQ items).length + 2) rest st) ∧
+    (∀ rest, lexStep (32 :: rest) st = .skip (rest.dropWhile isSpaceB) st) := by
+  refine ⟨fun n rest h => step_dur st hst n rest h, ?_, fun sh rest h1 h2 => step_num st hst sh h1 rest h2,
+    fun items rest h => step_string st hst items h rest, fun rest => step_blank st hst.1 rest⟩
+  intro n rest h
+  have := step_dur_bracket { st with wantDur := true } rfl n rest h
+  have hback : ({ st with wantDur := false } : LexState) = st := by
+    obtain ⟨b, k, g, d, w⟩ := st; simp only [plain] at hst; simp [hst.1]
+  simpa [hback] using this
+
+open SH.PromLex.Steps in
+/-- composition across the bracket mode: `[<n>s]` → LEFT_BRACKET DURATION RIGHT_BRACKET, state restored -/
+theorem lex_range_suffix (f : Nat) (st : LexState) (hst : plain st) (hb : st.bracket = false) (hg : st.gotColon = false)
+    (n : Nat) (rest : List Nat) :
+    lexLoop (f + 3) (91 :: (printSeconds n ++ 93 :: rest)) st =
+      (⟨"LEFT_BRACKET", 1⟩ :: ⟨"DURATION", (printSeconds n).length⟩ :: ⟨"RIGHT_BRACKET", 1⟩ :: (lexLoop f rest st).1,
+       (lexLoop f rest st).2) :=
+  SH.PromLex.Steps.lex_range_suffix f st hst hb hg n rest
+
+/-- the whole pipeline on a concrete printed text: `sum by (job) (rate(foo{a="b"}[300s] offset 60s)) + -x ^ 2 @ 1.500` -/
+example : lexAll ("sum by (job) (rate(foo{a=\"b\"}[300s] offset 60s)) + -x ^ 2 @ 1.500".toList.map Char.toNat) =
+    ([⟨"SUM", 3⟩, ⟨"BY", 2⟩, ⟨"LEFT_PAREN", 1⟩, ⟨"IDENTIFIER", 3⟩, ⟨"RIGHT_PAREN", 1⟩, ⟨"LEFT_PAREN", 1⟩, ⟨"IDENTIFIER", 4⟩,
+      ⟨"LEFT_PAREN", 1⟩, ⟨"IDENTIFIER", 3⟩, ⟨"LEFT_BRACE", 1⟩, ⟨"IDENTIFIER", 1⟩, ⟨"EQL", 1⟩, ⟨"STRING", 3⟩, ⟨"RIGHT_BRACE", 1⟩,
+      ⟨"LEFT_BRACKET", 1⟩, ⟨"DURATION", 4⟩, ⟨"RIGHT_BRACKET", 1⟩, ⟨"OFFSET", 6⟩, ⟨"DURATION", 3⟩, ⟨"RIGHT_PAREN", 1⟩,
+      ⟨"RIGHT_PAREN", 1⟩, ⟨"ADD", 1⟩, ⟨"SUB", 1⟩, ⟨"IDENTIFIER", 1⟩, ⟨"POW", 1⟩, ⟨"NUMBER", 1⟩, ⟨"AT", 1⟩, ⟨"NUMBER", 5⟩], .eof) := by
+  decide
 
 end Lexical
 
